@@ -15,6 +15,7 @@
 #include <string_theory/format>
 #include <string_theory/codecs>
 #include <string_theory/iostream>
+#include <string_theory/stdio>
 #include <atomic>
 #include <thread>
 #include <sstream>
@@ -115,6 +116,13 @@ static std::vector<NamedOp> catalogue() {
     OP("litw_b", using namespace ST::literals; return bytes_of(L"second wide literal with other contents entirely"_st) + bytes_of(L"bw"_st) + bytes_of(L"bufw-b"_stbuf););
     OP("lit8", using namespace ST::literals; return bytes_of("narrow literal of more than sixteen bytes"_st) + bytes_of("n8"_st) + bytes_of("buf8"_stbuf) + bytes_of("{}-{x}"_stfmt(7, 255)););
     OP("trim_sets", return bytes_of(S.s_long.trim("e \t")) + "|" + bytes_of(S.s_mixed.trim_left("key=")) + "|" + bytes_of(S.s_num.trim_right("0123456789")) + "|" + bytes_of(S.s_hex.trim("0f")););
+    // ---- ST::printf to a thread's own FILE*, different pad characters and widths in different operations ----
+    OP("printf_a", char *mem = nullptr; size_t msz = 0; FILE *f = open_memstream(&mem, &msz); ST::printf(f, "{08}|{_*12}|{>10}|{_.<9}", 4242, "star", S.s_short, 7); ST::printf(f, "{020x}", 48879u); fclose(f); std::string r(mem, msz); free(mem); return r;);
+    OP("printf_b", char *mem = nullptr; size_t msz = 0; FILE *f = open_memstream(&mem, &msz); ST::printf(f, "{_#14}|{_-6}|{12}|{_=>16}", "hash", 1, S.s_short, 2.5); ST::printf(f, "{_~30}", "tilde"); fclose(f); std::string r(mem, msz); free(mem); return r;);
+    // ---- searches with needles of 4..32 bytes in texts of 64+ bytes, different needles in different operations ----
+    OP("search_a", return num(S.s_100.find("tail ") * 7 + S.s_big.find("MNOPQRSTUV") + S.s_big.find_last("WXYZABCD") + (long long)S.s_big.split("GHIJK").size()) + bytes_of(S.s_100b.replace("yyyy", "<4y>")).substr(0, 60) + bytes_of(S.s_big.after_first("QRSTUVWX")).substr(0, 20););
+    OP("search_b", return num(S.s_100.find("zzzzzzzz") * 3 + S.s_big.find("BCDEFGHIJKLMNOPQRSTUVWXY") + S.s_big.find_last("LMNOPQ") + (long long)S.s_big.split("UVWXYZA").size()) + bytes_of(S.s_100.replace("aaaaaaaa", "8")).substr(0, 60) + bytes_of(S.s_big.before_last("CDEFGH")).substr(2300, 40););
+    OP("search_c", return num((long long)S.s_big.contains("ZABCDEFGHIJ") + 2 * S.s_100b.contains("bbbbb\xF0") + S.s_big.find("NOPQR", ST::case_insensitive) + S.s_100.find("A TAIL", ST::case_insensitive)) + join(S.s_100.split(" tail ")).substr(0, 50););
 #undef OP
     return c;
 }
